@@ -1,10 +1,13 @@
 (* C02: every exported incremental sub-parser resumes transparently.
-   The schedule theorem is parser independent (first theorem); per parser it needs the
-   one-step property ExtOK.  PARTIAL: ExtOK is proved for SkipQuoted, ParseCallIDVal and
-   ParseUIntVal / ParseExpiresVal (theorems 2-4: every buffer, start offset, object state and
-   chunk schedule); for the other twelve entry points the schedule theorem is conditional and
-   the correspondence run + the resume oracle carry the property. *)
-From Sipsp Require Import Harness Resume Ext ExtLeaf.
+   The schedule theorem is parser independent (first theorem); per parser it needs the one-step
+   property ExtOK, proved here for: SkipQuoted, ParseCallIDVal, ParseUIntVal / ParseExpiresVal,
+   ParseCLenVal, ParseCSeqVal, ParseNameAddrPVal for every header kind (= ParseFromVal,
+   ParseOneContact), ParseOnePAI, ParseAllContactValues, ParseAllPAIValues, ParseTokenParam for
+   every flag set without POptInputEndF (with that flag every prefix is by definition the whole
+   input).  For each: every buffer, start offset, object state (so also resumed states) and chunk
+   schedule.  PARTIAL: not yet discharged for ParseFLine, ParseHdrLine, ParseHeaders,
+   ParseAllURIParams, ParseAllURIHdrs (correspondence run + resume oracle only). *)
+From Sipsp Require Import Harness Resume Ext ExtLeaf ExtCSeq ExtTok ExtNameAddr ExtNested ExtLists.
 Theorem C02_every_schedule_from_one_step :
   forall (S : Type) (P : list byte -> N -> S -> res S) (obs : S -> list Z) (Inv : N -> S -> Prop),
   ExtOK P obs Inv ->
@@ -13,8 +16,7 @@ Theorem C02_every_schedule_from_one_step :
 Proof. exact (fun S P obs Inv => resume_schedule P obs Inv). Qed.
 
 Theorem C02_skip_quoted : forall b k cuts, k <= nnat (length b) -> sorted_from (N.to_nat k) cuts ->
-  agrees (fun b o (_ : unit) => skip_quoted b o) (fun _ => []) b cuts
-         (chunked_trace (fun b o (_ : unit) => skip_quoted b o) b cuts k tt) k tt.
+  agrees (fun b o (_ : unit) => skip_quoted b o) (fun _ : unit => []) b cuts (chunked_trace (fun b o (_ : unit) => skip_quoted b o) b cuts k tt) k tt.
 Proof. exact (fun b k cuts => resume_schedule _ _ _ quoted_ExtOK b k tt cuts I). Qed.
 
 Theorem C02_callid : forall b k s0 cuts, k <= nnat (length b) -> sorted_from (N.to_nat k) cuts ->
@@ -24,3 +26,31 @@ Proof. exact (fun b k s0 cuts => resume_schedule _ _ _ callid_ExtOK b k s0 cuts 
 Theorem C02_uint_expires : forall b k s0 cuts, k <= nnat (length b) -> sorted_from (N.to_nat k) cuts ->
   agrees parse_uint obs_uint b cuts (chunked_trace parse_uint b cuts k s0) k s0.
 Proof. exact (fun b k s0 cuts => resume_schedule _ _ _ uint_ExtOK b k s0 cuts I). Qed.
+
+Theorem C02_content_length : forall b k s0 cuts, k <= nnat (length b) -> sorted_from (N.to_nat k) cuts ->
+  agrees parse_clen obs_uint b cuts (chunked_trace parse_clen b cuts k s0) k s0.
+Proof. exact (fun b k s0 cuts => resume_schedule _ _ _ clen_ExtOK b k s0 cuts I). Qed.
+
+Theorem C02_cseq : forall b k s0 cuts, k <= nnat (length b) -> sorted_from (N.to_nat k) cuts ->
+  agrees parse_cseq obs_cseq b cuts (chunked_trace parse_cseq b cuts k s0) k s0.
+Proof. exact (fun b k s0 cuts => resume_schedule _ _ _ cseq_ExtOK b k s0 cuts I). Qed.
+
+Theorem C02_nameaddr : forall h, forall b k s0 cuts, k <= nnat (length b) -> sorted_from (N.to_nat k) cuts ->
+  agrees (parse_nameaddr h) obs_pfrom b cuts (chunked_trace (parse_nameaddr h) b cuts k s0) k s0.
+Proof. exact (fun h b k s0 cuts => resume_schedule _ _ _ (nameaddr_ExtOK h) b k s0 cuts I). Qed.
+
+Theorem C02_one_pai : forall b k s0 cuts, k <= nnat (length b) -> sorted_from (N.to_nat k) cuts ->
+  agrees parse_one_pai obs_pfrom b cuts (chunked_trace parse_one_pai b cuts k s0) k s0.
+Proof. exact (fun b k s0 cuts => resume_schedule _ _ _ onepai_ExtOK b k s0 cuts I). Qed.
+
+Theorem C02_all_contacts : forall b k s0 cuts, k <= nnat (length b) -> sorted_from (N.to_nat k) cuts ->
+  agrees parse_all_contacts obs_contacts b cuts (chunked_trace parse_all_contacts b cuts k s0) k s0.
+Proof. exact (fun b k s0 cuts => resume_schedule _ _ _ contacts_ExtOK b k s0 cuts I). Qed.
+
+Theorem C02_all_pais : forall b k s0 cuts, k <= nnat (length b) -> sorted_from (N.to_nat k) cuts ->
+  agrees parse_all_pais obs_pais b cuts (chunked_trace parse_all_pais b cuts k s0) k s0.
+Proof. exact (fun b k s0 cuts => resume_schedule _ _ _ pais_ExtOK b k s0 cuts I). Qed.
+
+Theorem C02_token_param : forall flags (Hie : tf_ie (tp_decode flags) = false), forall b k s0 cuts, k <= nnat (length b) -> sorted_from (N.to_nat k) cuts ->
+  agrees (parse_tokparam flags) obs_tokparam b cuts (chunked_trace (parse_tokparam flags) b cuts k s0) k s0.
+Proof. exact (fun flags Hie b k s0 cuts => resume_schedule _ _ _ (tokparam_ExtOK flags Hie) b k s0 cuts I). Qed.
